@@ -49,6 +49,8 @@ def main():
         inv[mname][q]['loops'] = inline.loop_targets(f)
         inv[mname][q]['defs'] = inline.def_shapes(f)
         inv[mname][q]['comps'] = inline.comp_targets(f)
+        from tflsa.rules import accum
+        inv[mname][q]['init_depth'] = accum.init_depths(f)
   json.dump(inv, open(out, 'w'), indent=0, sort_keys=True)
   inline._INV = None
   print('functions: %d' % sum(len([q for q in v if not q.startswith('__')])
